@@ -64,6 +64,9 @@ TYPES = {
     'String(min_length=1, max_length=3)': ('str', 1, 3, None),
     'String(pattern="[a-z]+")': ('str', None, None, '[a-z]+'),
     'String(max_length=2, pattern="a|bc*")': ('str', None, 2, 'a|bc*'),
+    'Float64(max_value=2.5)': ('float', None, 2.5),
+    'Timestamp("%Y")': ('text',),
+    'Bytes': ('text',),
     'U': ('union',),
     'UC': ('union',),
     'UA': ('union',),
@@ -81,6 +84,8 @@ def other_types():
     """per aspect: C02 / C10 only make sense where some default can be accepted"""
     if hx.ASPECT in ('C02', 'C10'):
         return [t for t, k in TYPES.items() if k[0] in ('int', 'bool', 'str')]
+    if hx.ASPECT == 'C01':
+        return [t for t, k in TYPES.items() if k[0] not in ('float',)]
     return [t for t, k in TYPES.items() if k[0] != 'float']
 
 
@@ -88,6 +93,7 @@ def tag_types():
     if hx.ASPECT == 'C02':
         return [t for t, k in TYPES.items() if k[0] == 'union']
     return list(TYPES)
+ITEM = hx.ITEM if hx.ITEM in TYPES else 'Int32'
 BASES = {t: fe.parse(TEMPLATE % (t, '0')) for t in TYPES}
 assert fe.run_text([('t.stone', TEMPLATE % ('Int32', '0'))])[0] == 'ok'      # the template itself is a legal spec
 
@@ -127,6 +133,9 @@ def _literal_oracle(spec, d):
         return 'accept' if (spec[1] is None or d >= spec[1]) and (spec[2] is None or d <= spec[2]) else 'reject'
     if kind == 'bool':
         return 'accept' if isinstance(d, bool) else 'reject'
+    if kind == 'text':
+        # Timestamp / Bytes defaults are written as strings; whether a given string is well formed is not judged
+        return 'unspec' if isinstance(d, str) else 'reject'
     if kind == 'str':
         if not isinstance(d, str):
             return 'reject'
@@ -184,6 +193,7 @@ def _str_ok(d):
 def literal_default(d: V) -> bool:
     """
     pre: _str_ok(d)
+    pre: TYPES[ITEM][0] != 'text' or not isinstance(d, str)
     pre: not isinstance(d, float) or (d == d and abs(d) < 1e300)
     post: _
     """
@@ -245,3 +255,18 @@ def tag_default(k: int) -> bool:
                  and f.default.union_data_type is f.data_type))
     return fe.decide(_asts(A.AstTagRef('t.stone', 20, 0, tag)), lambda: [('t.stone', TEMPLATE % (hx.ITEM, tag))],
                      oracle, fidelity)
+
+
+TEXTS = ['', '1', '2020', 'a b', 'YWJj']
+
+
+@hx.harness(props=['C01', 'C03'], targets=_TG, items=['Timestamp("%Y")', 'Bytes'],
+            bound='string default of a Timestamp / Bytes field from a concrete list %s (strptime / base64 are C code)' % TEXTS,
+            outside=_OUT, budget=(60, 200))
+def text_default(k: int) -> bool:
+    """
+    pre: 0 <= k < len(TEXTS)
+    post: _
+    """
+    d = TEXTS[int(k)]
+    return _decide(d, lambda: fe.lit(d))
